@@ -62,6 +62,9 @@
 (*                unmarshal (wrong JSON type, null for a non-null field)   *)
 (*                makes resolveManyEntities `return err` out of the zip:   *)
 (*                every later element of the group is lost as well.        *)
+(* The driver derives every Fix* constant from the status of the finding    *)
+(* in known_findings.d/C20.json (fixed => TRUE, open => FALSE), so "the     *)
+(* pinned tree" below always means the tree as it is now.                   *)
 (* With all Fix* = TRUE TLC proves Correct for every list, outcome and     *)
 (* schedule in the bound; with FALSE it proves CorrectModuloKnown (nothing *)
 (* but the named deviations) and yields counterexamples to Correct.        *)
@@ -424,8 +427,9 @@ EntityReturn(i) ==
      /\ CASE out[i] = "err" -> errs' = errs + 1 /\ UNCHANGED <<recs, list>>
           [] out[i] = "panic" -> errs' = errs + 1 /\ recs' = recs + 1 /\ UNCHANGED list
           [] out[i] = "nil" ->
-               IF HasReq(T(i)) /\ ReqInline /\ ~FixNilReq
+               IF HasReq(T(i)) /\ ReqInline
                  THEN errs' = errs + 1 /\ recs' = recs + 1 /\ UNCHANGED list   \* nil dereference, recovered
+                                                                             \* (costs only this element)
                  ELSE UNCHANGED <<errs, recs, list>>                            \* a typed nil: null
           [] OTHER ->
                IF ~ReqOK(K(i))
@@ -537,6 +541,14 @@ Devs ==
   \cup (IF ~FixFirstRep /\ \E t \in MultiTN : DevOtherKey(t) THEN {"other-key"} ELSE {})
   \cup (IF ~FixShort /\ \E t \in MultiTN : DevShort(t) THEN {"short"} ELSE {})
   \cup (IF ~FixNilReq /\ \E t \in MultiTN : DevNilReq(t) THEN {"nil-requires"} ELSE {})
+\* the deviation classes a scenario lies in, whatever the Fix* constants say (the driver uses
+\* them to name a regression of a repaired deviation by its old key)
+DevsAll ==
+  (IF \E t \in MultiTN : DevBadReq(t) THEN {"bad-requires"} ELSE {})
+  \cup (IF \E t \in MultiTN : DevFirstInvalid(t) THEN {"first-invalid"} ELSE {})
+  \cup (IF \E t \in MultiTN : DevOtherKey(t) THEN {"other-key"} ELSE {})
+  \cup (IF \E t \in MultiTN : DevShort(t) THEN {"short"} ELSE {})
+  \cup (IF \E t \in MultiTN : DevNilReq(t) THEN {"nil-requires"} ELSE {})
 DevGroup(t) ==
   \/ ~FixFirstRep /\ (DevFirstInvalid(t) \/ DevOtherKey(t))
   \/ ~FixShort /\ DevShort(t)
@@ -573,5 +585,5 @@ EmitDone ==
     PrintT(ToJson([reps |-> reps, out |-> out, bout |-> bout, order |-> order,
                    list |-> list, errs |-> errs, recs |-> recs,
                    ideal |-> [i \in Idx |-> IdealAt(i)], units |-> FailUnits, mayerr |-> MayErr,
-                   devs |-> Devs, inline |-> ReqInline]))
+                   devs |-> Devs, cls |-> DevsAll, inline |-> ReqInline]))
 =============================================================================
